@@ -166,6 +166,15 @@ def toInts : Nat → List Int → List Int
     let g := bs.take 8
     (g ++ List.replicate (8 - g.length) 0).foldl (fun acc b => acc * 2 + b) 0 :: toInts f (bs.drop 8)
 
+/-- read of a local that may be unbound (first assigned inside a loop that may not have assigned it): `none` = unbound -/
+def unbound {α : Type} : Option α → M α
+  | some a => .ok a
+  | none => .error .unboundLocalError
+
+/-- `xs[:]` of every row: a copy (values have no identity) -/
+@[simp] theorem slice_all {α : Type} (xs : List α) : slice xs none none = xs := by
+  simp [slice, sliceHi, sliceLo]
+
 /-! ### loops -/
 
 /-- what one execution of a loop body ends with -/
